@@ -764,6 +764,8 @@ def rule_ged_zero(ctx: Ctx) -> None:
 
 def run(ctx: Ctx) -> None:
     from .c13 import rule_rewrite_order
+    from .c13 import rule_remove_identity_scope
+    rule_remove_identity_scope(ctx)   # every comparison works on copies with the identities removed: only identities may go
     rule_rewrite_order(ctx)   # the normalisation this property relies on (unwrap_nodes expands every wrapper, in order)
     rule_ged_zero(ctx)
     from ..rules import memo as _memo
@@ -806,6 +808,7 @@ def _edit_direct_zip(src: str) -> str:
 
 
 KNOCKOUTS = [
+    Knockout("remove-identity-strips-theta-zero-rotations", "graphiq/circuit/circuit_dag.py", sub_once('                if isinstance(self.dag.nodes[node]["op"].noise, NoNoise):\n                    self.remove_op(node)\n', '                if isinstance(self.dag.nodes[node]["op"].noise, NoNoise):\n                    self.remove_op(node)\n        for node in self.get_node_by_labels(["one-qubit"]):\n            op = self.dag.nodes[node]["op"]\n            if isinstance(op, ops.ParameterizedOneQubitRotation) and op.params[0] == 0 and isinstance(op.noise, NoNoise):\n                self.remove_op(node)\n'), "identity.scope", "phase gate"),
     Knockout("registers-compared-sorted-for-every-gate", CMP, sub_once("                    op1.q_registers_type == op2.q_registers_type\n                    and op1.q_registers == op2.q_registers\n", "                    sorted(zip(op1.q_registers_type, op1.q_registers)) == sorted(zip(op2.q_registers_type, op2.q_registers))\n"), "cmp.fields", "without order"),
     Knockout("redundant-filter-keeps-only-duplicates", CMP, sub_once("            if not check_isomorphic:\n                new_circuit_list.append(new_circuit)", "            if check_isomorphic:\n                new_circuit_list.append(new_circuit)"), "dedup.model", "drops circuit"),
     Knockout("redundant-filter-drops-on-any-difference", CMP, sub_once("                if circuit_is_isomorphic(current_circuit, to_add_circuit):\n                    check_isomorphic = True", "                if not circuit_is_isomorphic(current_circuit, to_add_circuit):\n                    check_isomorphic = True"), "dedup.model", "drops circuit"),
